@@ -57,7 +57,7 @@ def sev(start, dur, vel, tick, total, n, pre=None, k=None):
 class C20(Property):
     id = "C20"
     lean_module = "RosuModel.Props.C20Full"   # imports Props/C20Exact.lean (→ Props/C20.lean) and Props/C20Ieee.lean; all in namespace Rosu.C20
-    theorem_modules = ['RosuModel.Props.C20Exact', 'RosuModel.Props.C20Ieee', 'RosuModel.Props.C20IeeeTicks', 'RosuModel.Props.C20IeeeErr', 'RosuModel.Props.C20IeeeErr2', 'RosuModel.Props.C20IeeeForms', 'RosuModel.Props.C20IeeeFormsOrder', 'RosuModel.Props.C20IeeeOrder2']   # files whose top-level theorems are all audited
+    theorem_modules = ['RosuModel.Props.C20Exact', 'RosuModel.Props.C20Ieee', 'RosuModel.Props.C20IeeeTicks', 'RosuModel.Props.C20IeeeErr', 'RosuModel.Props.C20IeeeErr2', 'RosuModel.Props.C20IeeeForms', 'RosuModel.Props.C20IeeeFormsOrder', 'RosuModel.Props.C20IeeeOrder2', 'RosuModel.Props.C20IeeeOrder3', ('RosuModel.Lemmas.FloatAddSumMono', 'Rosu.FErr'), ('RosuModel.Lemmas.FloatAddAbsorb', 'Rosu.FErr')]   # files whose top-level theorems are all audited
     namespace = "Rosu.C20"
     design_ref = "5.20"
     level_text = (
@@ -87,6 +87,8 @@ class C20(Property):
         "eager Rust reference written from the property text judges the implementation.")
     technique = "Lean 4 proof (induction over spans / stack discipline) + bit-exact differential correspondence on the public iterator"
     required_theorems = [
+        "repeat_le_tail_nonneg_small_outside_sliver", "repeat_le_tail_nonneg_small_outside_band", "repeat_le_tail_nonneg_tiny_float", "repeat_le_tail_nonneg_small_sharp",
+        "repeat_le_tail_zero_start_float", "repeat_le_tail_of_absorbed_float", "repeat_le_tail_band_instances",
         "repeat_le_tail_statement_false", "repeat_le_tail_nonneg_statement_false", "repeat_gt_tail_neg_float", "repeat_gt_tail_pos_float", "repeat_zero_le_tail_float",
         "repeat_le_repeat_float", "repeat_le_tail_plus_span_float", "repeat_le_tail_of_span_ge", "repeat_le_tail_of_span_ge_limit",
         "head_exact_float", "repeat_time_err_float", "tail_time_err_float", "last_tick_time_err_float", "repeat_progress_exact_float", "span_start_mono_float",
@@ -110,6 +112,11 @@ class C20(Property):
         "lt_of_not_le_float_false", "orderedFieldLaws_float_false",
     ]
     partial_theorems = {
+        "repeat_le_tail_nonneg_small_outside_sliver": "Props/C20IeeeOrder3.lean, Lemmas/FloatAddSumMono.lean, Lemmas/FloatAddAbsorb.lean (sixth session, wave 11): repeat ≤ tail for a NON-NEGATIVE start and "
+            "n ≤ 2^20 with NO lower bound on the span duration D — proved everywhere except a sliver of span durations of relative width 2^-31 at half an ulp of the span start "
+            "(repeat_le_tail_nonneg_small_outside_sliver; relative to the start: …_outside_band; D ≤ 2^-54·A: …_tiny_float for n < 2^31; start 0: repeat_le_tail_zero_start_float). A search over 10^9 cases "
+            "found no counterexample with A ≥ 0 for n ≤ 2^30 (a pencil argument says a failure needs s·n ≳ 2^52); three instances inside the sliver are kernel-checked (repeat_le_tail_band_instances). PARTIAL: "
+            "the sliver itself and A = 0 with D < 2^-1071 (repeat_le_tail_nonneg_small_statement stays open). New float lemmas: add_le_add_of_toRat_le, add_half_ulp_float, add_absorb_le_float",
         "repeat_le_tail_of_span_ge / repeat_le_tail_statement_false": "Props/C20IeeeOrder2.lean (sixth session, wave 7): the order of the closed-form times on IEEE doubles is DECIDED. 'Every repeat (s + 2 ≤ n) is ≤ the "
             "tail' is FALSE: repeat_le_tail_statement_false (A = −2−2^-51, D = 2^-53(1+2^-10), n = 4, s = 2: A+2D rounds to −2, −2+D rounds up into the denser binade, A+4D rounds to −2) and, with 0 ≤ A, "
             "repeat_le_tail_nonneg_statement_false (A = 2147483582.9999995, D ≈ 2^-23, n = 2^29+1: the tail is 2147483647 exactly, the last repeat one ulp above), both `decide +kernel` on closed doubles. The "
